@@ -487,14 +487,20 @@ public:
     inline void process_assertion(statement_t &s) {
       assert(s.is_assert() || s.is_ref_assert() || s.is_bool_assert());
       
-      auto it = m_assert_map.find(&s);
-      if (it != m_assert_map.end())
-        return;
-
       var_dom_t vdom = var_dom_t::bottom();
       auto const &l = s.get_live();
       for (auto v : boost::make_iterator_range(l.uses_begin(), l.uses_end())) {
         vdom += v;
+      }
+
+      auto it = m_assert_map.find(&s);
+      if (it != m_assert_map.end()) {
+        // The assertion already has an identifier: generate its
+        // dependencies again (the statement is revisited by later
+        // fixpoint iterations and by get_results) and keep those of
+        // its later executions that flow through the statement.
+        m_sol.get_first().set(it->second, vdom | m_sol.get_first()[it->second]);
+        return;
       }
 
       unsigned id = m_assert_map.size();
@@ -1027,8 +1033,18 @@ public:
     if (it != m_results.end()) {
       if (!it->second.get_first().is_bottom()) {
         auto &bb = this->m_cfg.get_node(b);
+        // m_results holds the facts at the ENTRY of each block: the
+        // facts at the exit of b are the join of the facts at the
+        // entry of its successors.
+        assertion_crawler_domain_t out = assertion_crawler_domain_t::bottom();
+        for (auto const &succ : boost::make_iterator_range(bb.next_blocks())) {
+          auto sit = m_results.find(succ);
+          if (sit != m_results.end()) {
+            out = out.merge(sit->second);
+          }
+        }
         typename assertion_crawler_op_t::transfer_function vis
-	  (it->second /* OUT dataflow facts */,
+	  (out /* OUT dataflow facts */,
 	   m_assert_crawler_op.m_cdg,
 	   m_assert_crawler_op.m_assert_map,
 	   m_assert_crawler_op.m_summaries,
